@@ -229,7 +229,7 @@ Proof.
   - intros bs' e2 r2 t1 r1 Hc IH bs Hb. apply C_elmR; auto.
   - intros bs' x b1 r1 b2 r2 Hc IH bs Hb. constructor. apply IH. now apply X.
   - intros bs' f1 a1 r1 f2 a2 r2 H1 IH1 H2 IH2 bs Hb. constructor; auto.
-  - intros bs' x e1 b1 r1 e2 b2 r2 H1 IH1 H2 IH2 bs Hb. constructor; auto. apply IH2. now apply X.
+  - intros bs' x e1 b1 r1 e2 b2 r2 H1 IH1 H2 IH2 bs Hb. constructor; [auto|apply IH2; now apply X].
   - intros bs' x e1 b1 r1 e2 b2 r2 H1 IH1 H2 IH2 bs Hb.
     constructor; [apply IH1|apply IH2]; now apply X.
   - intros; constructor.
@@ -248,7 +248,7 @@ Proof.
   - intros bs' e1 es1 r1 e2 es2 r2 H1 IH1 H2 IH2 bs Hb. constructor; auto.
   - intros; constructor.
   - intros ns bs' f b1 fs1 r1 b2 fs2 r2 Hd1 Hd2 H1 IH1 H2 IH2 bs Hb.
-    apply CF_dep; auto. apply IH1. now apply Y.
+    apply CF_dep; auto.
   - intros ns bs' f b1 fs1 r1 b2 fs2 r2 Hd1 Hd2 H1 IH1 H2 IH2 bs Hb.
     apply CF_nodep; auto.
 Qed.
@@ -314,7 +314,7 @@ Proof.
   - intros bs' x b1 r1 b2 r2 Hc IH bs y c1 c2 Hb Hbr. constructor. apply IH; [now apply X|assumption].
   - intros bs' f1 a1 r1 f2 a2 r2 H1 IH1 H2 IH2 bs y c1 c2 Hb Hbr. constructor; auto.
   - intros bs' x e1 b1 r1 e2 b2 r2 H1 IH1 H2 IH2 bs y c1 c2 Hb Hbr.
-    constructor; auto. apply IH2; [now apply X|assumption].
+    constructor; [auto|apply IH2; [now apply X|assumption]].
   - intros bs' x e1 b1 r1 e2 b2 r2 H1 IH1 H2 IH2 bs y c1 c2 Hb Hbr.
     constructor; [apply IH1|apply IH2]; auto.
   - intros; constructor.
@@ -333,7 +333,7 @@ Proof.
   - intros bs' e1 es1 r1 e2 es2 r2 H1 IH1 H2 IH2 bs y c1 c2 Hb Hbr. constructor; auto.
   - intros; constructor.
   - intros ns bs' f b1 fs1 r1 b2 fs2 r2 Hd1 Hd2 H1 IH1 H2 IH2 bs y c1 c2 Hb Hbr.
-    apply CF_dep; auto. apply IH1; [now apply Y|assumption].
+    apply CF_dep; auto.
   - intros ns bs' f b1 fs1 r1 b2 fs2 r2 Hd1 Hd2 H1 IH1 H2 IH2 bs y c1 c2 Hb Hbr.
     apply CF_nodep; auto.
 Qed.
@@ -383,7 +383,6 @@ Proof.
     { intros t Ht z Hz. destruct (string_dec z x) as [->|Hne]; [left; now left|].
       destruct (Hfv z) as [H|H]; [apply in_filter_ne; split; auto|left; now right|now right]. }
     constructor; [apply IHt1|apply IHt2]; apply A; intros z Hz; apply in_app_iff; auto.
-  - apply C_import.
   - constructor; [apply IHt1|apply IHt2]; intros z Hz; apply Hfv; apply in_app_iff; auto.
   - constructor; [apply IHt1|apply IHt2|apply IHt3]; intros z Hz; apply Hfv;
       rewrite !in_app_iff; auto.
